@@ -8,6 +8,9 @@
 (* recorded answer and the final state is the recorded one.  Accepted runs   *)
 (* are announced by  <<"RUN-OK", line>> ; the search only continues behind   *)
 (* an accepted run, so the first run without the line is the rejected one.   *)
+(* The returned payments and the final state include the route of every      *)
+(* attempt (RouteOk): concurrent registrations must also read back as        *)
+(* registered, and be admitted / refused from the stored images.             *)
 EXTENDS PaymentStoreObs, Json
 VARIABLES r,      \* line of the current run's Reset record
           done    \* lines of the current run already linearized
@@ -35,7 +38,7 @@ Apply(e) ==
 Answered(e) ==
   /\ e.cls = last'.cls
   /\ e.a \in Returning =>
-       IF last'.cls = "ok" THEN ProjOk(e.ret, payments'[e.h]) ELSE e.ret.ex = 0
+       IF last'.cls = "ok" THEN ProjOk(e.ret, payments'[e.h]) /\ RouteOk(e.ret, payments'[e.h]) ELSE e.ret.ex = 0
   /\ e.a = "DeletePayments" => e.n = last'.n
   /\ e.a = "FetchInFlight" =>
        {e.inf[i] : i \in 1..Len(e.inf)} = NonTerminal /\ Len(e.inf) = Cardinality(NonTerminal)
@@ -48,12 +51,12 @@ Linearize(i) == /\ i \in Cand
 
 Finish == /\ r <= Len(Trace)
           /\ done = Calls
-          /\ \A h \in Hashes : ProjOk(Trace[r].s[h], payments[h])
+          /\ \A h \in Hashes : ProjOk(Trace[r].s[h], payments[h]) /\ RouteOk(Trace[r].s[h], payments[h])
           /\ PrintT(<<"RUN-OK", r>>)
           /\ r' = r + Trace[r].ncalls + 1
           /\ done' = {}
           /\ payments' = [h \in Hashes |-> Absent]
-          /\ last' = [op |-> "none", h |-> "", cls |-> "ok", n |-> -1]
+          /\ last' = NoLast
 
 CInit == Init /\ r = 1 /\ done = {}
 CNext == \/ r <= Len(Trace) /\ \E i \in Calls : Linearize(i)
